@@ -160,8 +160,12 @@ theorem wfRes_parts {r : Res} (h : wfRes r = true) :
   simp only [wfRes, Bool.and_eq_true] at h
   obtain ⟨⟨⟨h1, h2⟩, h3⟩, h4⟩ := h
   refine ⟨?_, ?_, ?_, ?_⟩
-  · intro mb hm; simp only at hm; subst hm; simpa [wfMB] using h1
-  · intro mb hm; simp only at hm; subst hm; simpa [wfMB] using h2
+  · intro mb hm; simp only at hm; subst hm
+    have : mb.natAbs < 262144 := by simpa [wfMB] using h1
+    exact Nat.lt_of_lt_of_le this (by decide)
+  · intro mb hm; simp only at hm; subst hm
+    have : mb.natAbs < 262144 := by simpa [wfMB] using h2
+    exact Nat.lt_of_lt_of_le this (by decide)
   · intro s hs; simp only at hs; subst hs; simpa using h3
   · intro t ht; simp only at ht; subst ht; simpa using h4
 
